@@ -1,4 +1,4 @@
-CONSTANTS Scope = "full" Mutant = "none"
+CONSTANTS Scope = "full" Mutant = "none" DepEnumOffered = FALSE
 SPECIFICATION Spec
 INVARIANT Inv_ExactlyOneCall
 INVARIANT Inv_PathArity
